@@ -341,6 +341,11 @@ fn gen_pair(fam: Family, s: Scalar, r: &mut SimRng) -> (DistSpec, DistSpec) {
             if below(r, 3) == 0 {
                 sc = -sc; // negative std_dev is documented as allowed
             }
+            if mode == 3 && below(r, 2) == 0 {
+                // degenerate scale: the constructor accepts std_dev == +-0; the value is
+                // then `mean` and the word consumption must still be that of the base
+                sc = if below(r, 2) == 0 { 0.0 } else { -0.0 };
+            }
             (mk(&[0.0, 1.0]), mk(&[loc(r), sc]))
         }
         Family::Cauchy | Family::Gumbel => (mk(&[0.0, 1.0]), mk(&[loc(r), scale(r)])),
@@ -387,6 +392,7 @@ fn gen_pair(fam: Family, s: Scalar, r: &mut SimRng) -> (DistSpec, DistSpec) {
         }
         Family::LogNormal => {
             let (mu, sg) = if f32_ { (lin(r, -5.0, 5.0), logu(r, 1e-3, 3.0)) } else { (lin(r, -20.0, 20.0), logu(r, 1e-3, 5.0)) };
+            let sg = if mode == 3 && below(r, 2) == 0 { 0.0 } else { sg };
             (mk(&[0.0, 1.0]), mk(&[mu, if below(r, 4) == 0 { -sg } else { sg }]))
         }
         Family::Triangular => {
